@@ -155,15 +155,10 @@ impl MT101 {
                             .parse_optional_variant_field::<Field50OrderingCustomerFGH>("50")?;
                     }
                     _ => {
-                        // Unknown variant - try instructing party first, then ordering customer
-                        if let Ok(Some(field)) =
-                            parser.parse_optional_variant_field::<Field50InstructingParty>("50")
-                        {
-                            instructing = Some(field);
-                        } else {
-                            ordering = parser
-                                .parse_optional_variant_field::<Field50OrderingCustomerFGH>("50")?;
-                        }
+                        // Any other option letter is not allowed here: report it instead of
+                        // guessing (a failed first guess used to consume and drop the field)
+                        ordering = parser
+                            .parse_optional_variant_field::<Field50OrderingCustomerFGH>("50")?;
                     }
                 }
             }
